@@ -22,7 +22,7 @@ WALL_LIMIT = {'quick': 1500, 'thorough': 6 * 3600}
 def sim_cases():
     cfg = g.config(limits=True, pgleader=True, putlocks=False)
     ops = [
-        g.op_apply(limits=True), g.op_apply(limits=True), g.op_apply(limits=True),
+        g.op_apply(limits=True, cbscan=True), g.op_apply(limits=True), g.op_apply(limits=True),
         g.run, g.run, g.run, g.adv_lim, g.adv_lim, g.adv_lim, g.adv,
         g.scan, g.scan, g.scan, g.work, g.feed, g.scanrace, g.scanrace,
         g.worker_ops[0], g.worker_ops[2], g.worker_ops[4], g.hterm, g.tick, g.op_map(), g.op_imap(),
